@@ -1620,6 +1620,28 @@ func instructionLocality(instr ssa.Instruction, g *EscapeGraph) *dataflow.Escape
 	case *ssa.Go:
 		return nil // go func is clearly non-local
 	case *ssa.Call:
+		if builtin, ok := instrType.Call.Value.(*ssa.Builtin); ok {
+			// Builtins have no callee body that is analyzed in its own context: the ones below read or write
+			// memory reachable from their pointer-like arguments.
+			switch builtin.Name() {
+			case "append", "copy", "delete", "clear", "close", "len", "cap":
+				for _, arg := range instrType.Call.Args {
+					switch arg.Type().Underlying().(type) {
+					case *types.Slice:
+						if builtin.Name() == "len" || builtin.Name() == "cap" {
+							continue // the slice header is a value
+						}
+					case *types.Map, *types.Chan:
+					default:
+						continue
+					}
+					if rationale := derefsAreLocal(g, g.nodes.ValueNode(arg)); rationale != nil {
+						return rationale
+					}
+				}
+			}
+			return nil
+		}
 		return nil // functions require special handling
 	case *ssa.MakeClosure:
 		// Making a closure is a local operation. The resulting closure may close over external
@@ -1643,7 +1665,13 @@ func instructionLocality(instr ssa.Instruction, g *EscapeGraph) *dataflow.Escape
 		return nil
 	case *ssa.Slice, *ssa.SliceToArrayPointer:
 		return nil // taking sub-slices is an array operation
-	case *ssa.MakeInterface, *ssa.Convert,
+	case *ssa.Convert:
+		// string(b) for b []byte or []rune reads the backing array of b
+		if _, ok := instrType.X.Type().Underlying().(*types.Slice); ok {
+			return derefsAreLocal(g, g.nodes.ValueNode(instrType.X))
+		}
+		return nil
+	case *ssa.MakeInterface,
 		*ssa.ChangeInterface, *ssa.ChangeType, *ssa.Phi, *ssa.Extract:
 		// conversions and ssa specific things don't access memory
 		return nil
